@@ -220,6 +220,17 @@ theorem C33_entity_flush (H : Hooks) (princ saveList : State → Nat → List Na
     rfl
   · exact hsv3
 
+/-- the same with the references as STATE (`entityFlushRefs`): the scan for new referenced objects reads the references after the
+    hook of the scanned object has run — a hook may create an object and store it in a reference of its own object — and
+    `_save_principal_objects_` is the post-order walk `saveDfs`; the guard is now a statement about two model-computed lists -/
+theorem C33_entity_flush_refs (H : Hooks) (bfuel : Nat) (s s' s1 : State) (o : Nat) (hl : List Nat)
+    (hinv : Inv s) (hsv : s.saved = []) (hpend : ∃ k, s.kindAt o = some k)
+    (hb : entityBeforeLoop H (fun st p => st.refsOf p) bfuel 0 [o] s = .ok (s1, hl))
+    (hguard : (saveDfs s1 (s1.objs.length + 1) [] o).Perm hl)
+    (h : entityFlushRefs H bfuel s o = .ok s') :
+    ∃ seg, RoundShape seg ∧ s'.trace = s.trace ++ seg ∧ s'.saved = [] :=
+  C33_entity_flush H (fun st p => st.refsOf p) (fun st p => saveDfs st (st.objs.length + 1) [] p) bfuel s s' s1 o hl hinv hsv hpend hb hguard h
+
 /-! ### queries inside after_* hooks: recursive flushes nested in the after-phase -/
 
 /-- ONCE, nested: whatever the hooks do — including queries inside after_* hooks, which flush recursively to any depth — the trace
@@ -383,6 +394,13 @@ example : traceOf (flushN { before := fun _ _ _ => [],
                      (fun _ l => l) 100 3 demo) =
     some [.before .update 1, .before .insert 2, .stmt .update 1, .stmt .insert 2, .after .update 1, .after .insert 2,
           .before .update 1, .before .update 2, .stmt .update 1, .stmt .update 2, .after .update 1, .after .update 2] := by decide
+
+/-- obj.flush() of a MODIFIED object whose before_update creates an object and stores it in a reference of the flushed object:
+    the new object gets its before_insert before its INSERT, which precedes the UPDATE -/
+example : traceOf (entityFlushRefs { before := fun k _ o => if k = .update ∧ o = 0 then [.create, .refToNew 0] else [], after := fun _ _ _ => [] } 100
+      { objs := [⟨.modified, 1⟩], queue := [some 0], modified := true, saved := [], trace := [],
+        lk := { view := [], pendAdd := [], pendRem := [], m2mAdd := [], m2mRem := [], db := [] }, refs := [[]] } 0) =
+    some [.before .update 0, .before .insert 1, .stmt .insert 1, .stmt .update 0, .after .insert 1, .after .update 0] := by decide
 
 theorem demo_lk : LK demo := by
   refine ⟨⟨?_, ?_, ?_⟩, ⟨rfl, rfl⟩, ?_⟩
